@@ -402,6 +402,154 @@ pub fn c01_first_leaf(rng: &mut Rng, thorough: bool) -> Scenario {
     Scenario { ops, label: format!("c01first n={} vlen={} cc={}", n, vlen, cfg.cc) }
 }
 
+/// "ABA": a change set is prepared, then other commits (or a commit and a rollback) change the state
+/// and bring it back to EXACTLY the same key/value set - the root is the same, the pages behind it are
+/// not (buckets cleared / reused, elision bits); the old change set must be refused, must leave no
+/// trace, and everything must still be provable after a reopen
+pub fn c12_aba(rng: &mut Rng, _thorough: bool) -> Scenario {
+    let mut ops = Vec::new();
+    let mut ids = Ids::new();
+    let mut kg = KeyGen::new(rng);
+    let mut live = Live::default();
+    let mut cfg = gen_cfg(rng);
+    cfg.rollback = true;
+    cfg.max_len = 100;
+    cfg.ht = *rng.pick(&[2048u32, 64000]);
+    ops.push(Op::Open(cfg.clone()));
+    let sz0 = rng.range(1, 30) as usize;
+    let b = gen_batch(rng, &mut kg, &live, &BatchSpec { size: sz0, mix: ValueMix::Small, p_delete: 0, p_read: 0, p_rw: 0, p_existing: 0 });
+    live.apply(&b);
+    ops.extend(commit_ops(ids.s(), ids.c(), b, false));
+    // a dense group under one page, above or below the elision threshold
+    let bits = *rng.pick(&[12usize, 12, 18]);
+    let dense = kg.dense(rng, bits, 26);
+    let n0 = *rng.pick(&[2usize, 5, 19, 20, 21, 24]);
+    let mut g: Vec<(Key, Acc)> = dense[..n0].iter().map(|k| (*k, Acc::Write(Some(gen_value(rng, ValueMix::Small))))).collect();
+    g.sort_by(|a, b| a.0.cmp(&b.0));
+    live.apply(&g);
+    ops.extend(commit_ops(ids.s(), ids.c(), g.clone(), false));
+    // sometimes shrink the group first, so that its page is stored with few leaves (hysteresis)
+    if n0 >= 20 && rng.chance(1, 2) {
+        let mut d: Vec<(Key, Acc)> = dense[2..n0].iter().map(|k| (*k, Acc::Write(None))).collect();
+        d.sort_by(|a, b| a.0.cmp(&b.0));
+        live.apply(&d);
+        ops.extend(commit_ops(ids.s(), ids.c(), d, false));
+    }
+    // the change set that will go stale: touches the group
+    let cur: Vec<Key> = dense.iter().filter(|k| live.map.contains_key(*k)).copied().collect();
+    let (s0, c0) = (ids.s(), ids.c());
+    let mut stale_batch: Vec<(Key, Acc)> = vec![(cur[rng.below(cur.len() as u64) as usize], Acc::Write(Some(gen_value(rng, ValueMix::Small))))];
+    if rng.chance(1, 2) {
+        stale_batch.push((dense[25], Acc::Write(Some((7, 7)))));
+    }
+    stale_batch.sort_by(|a, b| a.0.cmp(&b.0));
+    stale_batch.dedup_by(|a, b| a.0 == b.0);
+    ops.push(Op::Begin { s: s0, chain: vec![], witness: false });
+    ops.push(Op::Finish { s: s0, c: c0, batch: stale_batch });
+    let as_overlay = rng.chance(1, 2);
+    if as_overlay {
+        ops.push(Op::Overlay { c: c0 });
+    }
+    // away and back
+    let back_by_rollback = rng.chance(1, 3);
+    let away: Vec<(Key, Acc)> = match rng.below(3) {
+        0 => cur.iter().map(|k| (*k, Acc::Write(None))).collect(),
+        1 => dense[n0.min(25)..26].iter().map(|k| (*k, Acc::Write(Some((9, 9))))).collect(),
+        _ => cur.iter().take(1).map(|k| (*k, Acc::Write(Some((11, 11))))).collect(),
+    };
+    let mut away = away;
+    away.sort_by(|a, b| a.0.cmp(&b.0));
+    let before = live.clone();
+    live.apply(&away);
+    ops.extend(commit_ops(ids.s(), ids.c(), away.clone(), false));
+    if back_by_rollback {
+        ops.push(Op::Rollback(1));
+    } else {
+        let mut back: Vec<(Key, Acc)> = away.iter().map(|(k, _)| (*k, Acc::Write(before.map.get(k).copied()))).collect();
+        back.sort_by(|a, b| a.0.cmp(&b.0));
+        ops.extend(commit_ops(ids.s(), ids.c(), back, false));
+    }
+    live = before;
+    ops.push(Op::CheckAll { proofs: 4 });
+    // the stale change set: refused, no effect
+    ops.push(Op::Commit { c: c0, nb: rng.chance(1, 2) });
+    ops.push(Op::CheckAll { proofs: 4 });
+    // life goes on, also after a reopen (damage of an accepted stale change set shows only then)
+    let sz2 = rng.range(1, 10) as usize;
+    let b2 = gen_batch(rng, &mut kg, &live, &BatchSpec { size: sz2, mix: ValueMix::Small, p_delete: 30, p_read: 0, p_rw: 30, p_existing: 70 });
+    live.apply(&b2);
+    ops.extend(commit_ops(ids.s(), ids.c(), b2, false));
+    ops.push(Op::Close);
+    ops.push(Op::Open(cfg.clone()));
+    ops.push(Op::CheckAll { proofs: 30 });
+    for k in dense.iter().take(8) {
+        ops.push(Op::Read(*k));
+    }
+    let mut g2: Vec<(Key, Acc)> = dense[..6].iter().map(|k| (*k, Acc::Write(Some((13, 13))))).collect();
+    g2.sort_by(|a, b| a.0.cmp(&b.0));
+    ops.extend(commit_ops(ids.s(), ids.c(), g2, false));
+    ops.push(Op::CheckAll { proofs: 30 });
+    Scenario { ops, label: format!("c12aba n0={} ov={} rb={}", n0, as_overlay as u8, back_by_rollback as u8) }
+}
+
+/// small trees of FULL leaves (values at the in-leaf limit, three per leaf) changed at leaf boundaries by
+/// 2..4 workers: deletions that make neighbouring leaves underfull so that workers extend their ranges,
+/// merge across worker boundaries and split again
+pub fn c01_worker_edges(rng: &mut Rng, thorough: bool) -> Scenario {
+    let mut ops = Vec::new();
+    let mut ids = Ids::new();
+    let mut live = Live::default();
+    let mut cfg = gen_cfg(rng);
+    cfg.rollback = false;
+    cfg.cc = *rng.pick(&[2usize, 2, 3, 3, 4, 5, 8]);
+    ops.push(Op::Open(cfg.clone()));
+    let n = rng.range(9, if thorough { 120 } else { 40 }) as usize;
+    let mut keys: Vec<Key> = (0..n)
+        .map(|i| {
+            let mut k = [0u8; 32];
+            k[0] = (i >> 4) as u8;
+            k[1] = ((i & 15) << 4) as u8 | rng.below(16) as u8;
+            k
+        })
+        .collect();
+    keys.sort();
+    keys.dedup();
+    let sizes = [1332usize, 1332, 1300, 1000, 700, 300];
+    let b: Vec<(Key, Acc)> = keys.iter().map(|k| (*k, Acc::Write(Some((*rng.pick(&sizes), rng.next() % 1_000_000))))).collect();
+    live.apply(&b);
+    ops.extend(commit_ops(ids.s(), ids.c(), b, false));
+    ops.push(Op::CheckAll { proofs: 1 });
+    for _ in 0..rng.range(2, if thorough { 8 } else { 5 }) {
+        let cur: Vec<Key> = live.map.keys().copied().collect();
+        if cur.len() < 4 {
+            break;
+        }
+        let mut b: Vec<(Key, Acc)> = Vec::new();
+        let p_del = *rng.pick(&[20u64, 35, 50, 70]);
+        for k in &cur {
+            if rng.chance(p_del, 100) {
+                b.push((*k, Acc::Write(None)));
+            } else if rng.chance(1, 6) {
+                b.push((*k, Acc::Write(Some((*rng.pick(&sizes), rng.next() % 1_000_000)))));
+            }
+        }
+        for _ in 0..rng.range(0, 4) {
+            let mut k = cur[rng.below(cur.len() as u64) as usize];
+            k[31] = rng.below(255) as u8 + 1;
+            b.push((k, Acc::Write(Some((*rng.pick(&sizes), 3)))));
+        }
+        if b.is_empty() {
+            continue;
+        }
+        b.sort_by(|a, b| a.0.cmp(&b.0));
+        b.dedup_by(|a, b| a.0 == b.0);
+        live.apply(&b);
+        ops.extend(commit_ops(ids.s(), ids.c(), b, false));
+        ops.push(Op::CheckAll { proofs: 1 });
+    }
+    Scenario { ops, label: format!("c01edges n={} cc={}", n, cfg.cc) }
+}
+
 pub fn c02(rng: &mut Rng, thorough: bool) -> Scenario {
     let mut ops = Vec::new();
     let mut ids = Ids::new();
@@ -1195,6 +1343,7 @@ pub fn generate(prop: &str, rng: &mut Rng, thorough: bool) -> Vec<Scenario> {
             1 => c01_clusters(rng, thorough),
             2 => c01_zero_prefix(rng, thorough),
             3 => c01_first_leaf(rng, thorough),
+            4 => c01_worker_edges(rng, thorough),
             _ => c01(rng, thorough),
         }],
         "C02" => vec![c02(rng, thorough)],
@@ -1203,7 +1352,7 @@ pub fn generate(prop: &str, rng: &mut Rng, thorough: bool) -> Vec<Scenario> {
         "C09" => vec![c09(rng, thorough)],
         "C10" => vec![c10(rng, thorough)],
         "C11" => vec![c11(rng, thorough)],
-        "C12" => vec![c12(rng, thorough)],
+        "C12" => vec![if rng.chance(1, 3) { c12_aba(rng, thorough) } else { c12(rng, thorough) }],
         "C13" => {
             let h = c13_history(rng, thorough);
             let mut v: Vec<Scenario> = c13_cfgs(rng, if thorough { 8 } else { 4 })
@@ -1214,6 +1363,19 @@ pub fn generate(prop: &str, rng: &mut Rng, thorough: bool) -> Vec<Scenario> {
                     Scenario { ops, label: format!("c13 {}", c.to_line()) }
                 })
                 .collect();
+            // every third history: full leaves changed at leaf boundaries, under 2..8 workers
+            if rng.chance(1, 3) {
+                let sc = c01_worker_edges(rng, thorough);
+                let hist: Vec<Op> = sc.ops.iter().skip(1).cloned().collect();
+                for cc in [2usize, 3, 4, 8] {
+                    let mut c = gen_cfg(rng);
+                    c.cc = cc;
+                    c.rollback = false;
+                    let mut ops = vec![Op::Open(c.clone())];
+                    ops.extend(hist.iter().cloned());
+                    v.push(Scenario { ops, label: format!("c13edges {}", c.to_line()) });
+                }
+            }
             // every fourth history (every second in the thorough tier): the large-tree flavour
             // under the smallest caches
             if rng.chance(1, if thorough { 2 } else { 4 }) {
